@@ -281,6 +281,25 @@ def design_driver(m, i, nshards, tier):
                                             f"reference (expected kept levels {kept})", case=case, key="columns:" + fn)
                             elif list(term.labels) != labels:
                                 m.violation("options-honoured", f"{text} with lv={levels}: labels {term.labels} vs {labels}", case=case, key="labels:" + fn)
+                # levels= that do not cover the data: refused, or - if accepted - every column is still the indicator
+                # of the level in its label (a value outside levels= is never counted as one of the listed levels)
+                for sub in (levels[:-1], levels[1:]):
+                    if not sub:
+                        continue
+                    for text in (f"C({col}, levels=lv)", f"T({col}, levels=lv)", f"C({col}, Treatment, lv)"):
+                        case = {"formula": "y ~ 0 + " + text, "levels": [repr(l) for l in sub], "column": col, "option": "levels-not-covering"}
+                        m.case(case, canon=[text, case["levels"], "partial"], nontrivial=True)
+                        m.ev("options-honoured")
+                        try:
+                            dmp = formulae.design_matrices("y ~ 0 + " + text, df, extra_namespace={"lv": sub})
+                        except Exception:
+                            m.cls("levels-not-covering:refused")
+                            continue
+                        Xp = np.asarray(dmp.common[text], dtype=float)
+                        wantp = np.column_stack([(rows == l).astype(float) for l in sub])
+                        if Xp.shape != wantp.shape or not np.array_equal(Xp, wantp):
+                            m.violation("options-honoured", f"0 + {text} with lv={sub} on data with levels {levels}: accepted, and the columns "
+                                        "are not the indicators of the listed levels", case=case, key="levels-not-covering-data")
                 # unknown reference refused
                 m.ev("options-honoured")
                 try:
